@@ -277,7 +277,7 @@ def r07_6(ctx: Ctx):
                       key=ctx.key_for(rid, f, x))
     ctx.ok(rid, e.cls.name, f'{n} integer shifts / powers over the stored dimension or density; attributes stored '
                             f'verbatim: {sorted(all_raw)}', e.cls.module.relpath)
-    ctx.floor(rid, 'attributes the evolvent stores verbatim from integer parameters', len(all_raw), 2)
+    ctx.floor(rid, 'attributes the evolvent stores verbatim from integer parameters', len(all_raw), 1)
 
 
 def check(ctx: Ctx):
